@@ -138,7 +138,13 @@ func (u *Unit) setElemsArr(st *State, ref *Term, elem types.Type, arr *Term) {
 
 func (u *Unit) subRef(dt *structDT, field int, ref *Term) *Term {
 	name := "sub_" + dt.named + "_" + sanitize(dt.fields[field].name)
-	u.m.UF(name, SInt, SInt)
+	if _, ok := u.m.ufuncs[name]; !ok {
+		// embedded objects of distinct objects are distinct: sub is injective
+		u.m.UF(name, SInt, SInt)
+		u.m.UF(name+"_inv", SInt, SInt)
+		x := u.m.tb.BoundVar("r", SInt)
+		u.m.addAxiom(u.m.tb.Forall([]*Term{x}, u.m.tb.Eq(u.m.tb.App(name+"_inv", SInt, u.m.tb.App(name, SInt, x)), x)))
+	}
 	r := u.m.tb.App(name, SInt, ref)
 	if !u.quiet && !r.bound {
 		tb := u.m.tb
